@@ -1,0 +1,22 @@
+//go:build verif
+// +build verif
+
+package xuperos
+
+import (
+	"github.com/patrickmn/go-cache"
+
+	"github.com/xuperchain/xupercore/kernel/engines/xuperos/common"
+)
+
+// NewChainForVerif wraps an already wired chain context (ledger, state machine, contract manager, acl ...)
+// into a Chain, so that the verification harness can call the engine's own Chain.PreExec / Chain.SubmitTx
+// without LoadChain (which needs a conf directory, node keys on disk, a network and a consensus plugin).
+// No miner is created: Start / Stop / ProcBlock must not be called on the result.
+func NewChainForVerif(ctx *common.ChainCtx) *Chain {
+	return &Chain{
+		ctx:       ctx,
+		log:       ctx.XLog,
+		txIdCache: cache.New(TxIdCacheExpired, TxIdCacheGCInterval),
+	}
+}
